@@ -198,7 +198,8 @@ class Session:
         pc, lp = self.w['pc'], self.lp
         body = {}
         if op['type'] != '~':
-            body[pc.TASK_KEY] = op['type']
+            # (a task type need not be a string, nor hashable: whatever is not one of the three known types is unknown)
+            body[pc.TASK_KEY] = {'@list': ['launch'], '@dict': {'launch': True}, '@int': 0}.get(op['type'], op['type'])
         if op['ak'] == 'X':
             body[pc.TASK_ARGS] = 5
         elif op['ak'] == 'A':
@@ -224,7 +225,8 @@ class Session:
         pc, lp = self.w['pc'], self.lp
         op = dict.fromkeys(T_FIELDS, '~')
         if pc.TASK_KEY in body:
-            op['type'] = str(body[pc.TASK_KEY])
+            t = body[pc.TASK_KEY]
+            op['type'] = t if isinstance(t, str) else {list: '@list', dict: '@dict', int: '@int'}.get(type(t), '@other')
         if pc.TASK_ARGS not in body:
             op['ak'] = 'N'
             return op
@@ -700,7 +702,7 @@ def systematic(configs):
                 ops.append([mk('create', ident=ident, n='4', persist=p)])
         # unknown types, among them names that are attributes of the launcher once an underscore is put in front (a dispatch by
         # name would find something) and the names of its handler methods themselves
-        for tt in ('zzz', 'Launch', 'continue_', '~', 'loader', 'persister', 'loop', 'load_context', '_launch', 'call__'):
+        for tt in ('zzz', 'Launch', 'continue_', '~', 'loader', 'persister', 'loop', 'load_context', '_launch', 'call__', '@list', '@dict', '@int'):
             ops.append([mk(tt, ident='d.Out', n='1', persist='0', nowait='0')])
             ops.append([mk(tt, ak='N')])
         # malformed bodies
